@@ -2156,7 +2156,7 @@ class Logger:
         else:
             colored_message = None
 
-        if core.patcher:
+        if core.patcher is not None:
             core.patcher(log_record)
 
         for patcher in patchers:
